@@ -129,6 +129,7 @@ def rng_free_sub(c):
 #   ['verbatim', payload]
 #   ['float', env, payload]
 #   ['quote', payload]
+#   ['idx', key, payload]          a paragraph with an \index entry (key: harmless letters); ['printindex'] the index itself
 
 SECS = ['section', 'subsection', 'subsubsection', 'paragraph']
 
@@ -138,11 +139,15 @@ def rand_doc(rng, encoding, charsub):
         return rand_payload(rng, encoding, charsub, verbatim)
     blocks = []
     nsec = rng.choice([1, 2, 2, 3])
+    with_index = rng.random() < 0.4
     for s in range(nsec):
         inl = [rng.choice(['emph', 'textbf']), P()] if rng.random() < 0.3 else None
         blocks.append(['sec', 'section', P(), inl])
         for _ in range(rng.choice([1, 2, 3])):
             k = rng.choice(['para', 'para', 'list', 'tab', 'verbatim', 'float', 'quote', 'sub'])
+            if with_index and rng.random() < 0.5:
+                # an index entry: the index page links back with the (adversarial) title of the enclosing section as tooltip
+                blocks.append(['idx', 'k' + rng.choice(['apple', 'banana', 'cherry', 'date']) + rng.choice(['', '!sub', '!other']), P()])
             if k == 'para':
                 items = []
                 for _ in range(rng.choice([1, 2, 3])):
@@ -167,6 +172,10 @@ def rand_doc(rng, encoding, charsub):
             else:
                 blocks.append(['sec', rng.choice(SECS[1:]), P(), None])
                 blocks.append(['para', [['text', P()]]])
+                if with_index:
+                    blocks.append(['idx', 'k' + rng.choice(['apple', 'elder', 'fig']), P()])
+    if with_index:
+        blocks.append(['printindex'])
     return blocks
 
 
@@ -191,7 +200,7 @@ def doc_leaves(blocks):
                 out += row
         elif k in ('verbatim', 'quote'):
             out.append(b[1])
-        elif k == 'float':
+        elif k in ('float', 'idx'):
             out.append(b[2])
     return out
 
@@ -222,8 +231,10 @@ def map_leaves(blocks, f):
             out.append(['tab', [[g(c) for c in row] for row in b[1]]])
         elif k in ('verbatim', 'quote'):
             out.append([k, g(b[1])])
-        elif k == 'float':
-            out.append(['float', b[1], g(b[2])])
+        elif k in ('float', 'idx'):
+            out.append([k, b[1], g(b[2])])
+        elif k == 'printindex':
+            out.append(['printindex'])
     return out
 
 
@@ -271,6 +282,10 @@ def doc_source(blocks, literal=False):
             src.append('\\begin{quote}%s\\end{quote}\n\n' % L(b[1]))
         elif k == 'float':
             src.append('\\begin{%s}\\caption{%s}\\end{%s}\n\n' % (b[1], L(b[2]), b[1]))
+        elif k == 'idx':
+            src.append('%s\\index{%s}\n\n' % (L(b[2]), b[1]))
+        elif k == 'printindex':
+            src.append('\\printindex\n\n')
     src.append('\\end{document}\n')
     return ''.join(src)
 
@@ -482,7 +497,7 @@ def streams(rng, tier, boost):
     out.append(('c1-controls', dict(kind='c1', text='a\u0085b')))
     out.append(('c1-controls', dict(kind='c1', text='\u0080\u0099')))
     # documents
-    nd = (500 if not thorough else 3000) * boost
+    nd = (250 if not thorough else 3000) * boost
     for _ in range(nd):
         out.append(('doc', rand_doc_case(rng)))
     # the positions one at a time with the classic payloads (small scope at document level)
@@ -508,7 +523,8 @@ def all_positions(p):
             ['list', 'itemize', [[None, p]]], ['list', 'enumerate', [[None, p]]], ['list', 'description', [[p.replace(']', ')').replace('[', '('), p]]],
             ['tab', [[p, p], [p, p]]], ['verbatim', p], ['float', 'figure', p], ['float', 'table', p], ['quote', p],
             ['sec', 'section', p, None], ['sec', 'subsection', p, None], ['sec', 'subsubsection', p, None], ['sec', 'paragraph', p, None],
-            ['para', [['text', p]]]]
+            ['para', [['text', p]]], ['idx', 'kapple', p], ['sec', 'section', p, ['textbf', p]], ['idx', 'kapple!sub', p], ['idx', 'kbanana', p],
+            ['printindex']]
 
 
 def search_streams(rng, tier):
@@ -926,6 +942,8 @@ def tags(case, io):
         t.append('enc=' + case['enc'])
         for b in case['blocks']:
             t.append('pos:' + (b[1] if b[0] in ('sec', 'list', 'float') else b[0]))
+            if b[0] == 'printindex':
+                t.append('with-index')
             if b[0] == 'para':
                 t += ['pos:' + it[0] for it in b[1]]
         t = sorted(set(t))
